@@ -130,10 +130,46 @@ def correspondence(ctx):
     lines, metas = [], []          # metas: (case, keys, obs, info, label, sig)
     t0 = time.time()
 
+    driver_s = [0.0]
+
+    def flush():
+        """pipe the pending op lines through the Lean driver and diff (in batches, to bound memory)"""
+        if not lines or c.error:
+            return
+        td = time.time()
+        try:
+            outs = run_driver(lines, exe="drv_vinegar")
+        except DriverError as ex:
+            c.error = str(ex)
+            return
+        finally:
+            driver_s[0] += time.time() - td
+        for (case, keys, obs, info, label, sig), out in zip(metas, outs):
+            if not _compare(c, case, keys, obs, out, info, label):
+                continue
+            c.evaluations += 1
+            seen = obs["seen"].split(" ")
+            c.count(label)
+            c.count("seen:" + (" ".join(seen[:2]) if seen[0] == "err" else seen[0] + (":" + seen[1] if len(seen) > 1 else "")))
+            if obs.get("imp", "( )") != "( )":
+                c.count("import-attempted")
+            if obs.get("delta"):
+                c.count("module-imported")
+            trivial = case["kind"] == "exc" and case["spec"]["cls"] == "builtins:ValueError" and case["spec"]["args"] == "( )" \
+                and case["s"][:2] == "TT" and case["r"] == "FFF"
+            if not trivial:
+                c.signatures.add(sig)
+            if len(c.samples) < 12 and c.evaluations % 4099 == 7:
+                c.samples.append(dict(case=case, seen=obs["seen"][:300]))
+        del lines[:]
+        del metas[:]
+
     def add(case, keys, line, obs, info, label, sig):
         lines.append(line)
         obs = dict((k, v) for k, v in obs.items() if k not in ("obj", "exc_seen"))
         metas.append((case, keys, obs, dict(m=info.get("m"), importable=info.get("importable")), label, sig))
+        if len(lines) >= 25000:
+            flush()
 
     # 1. genuine exceptions, direct, full product
     for i, spec in enumerate(specs + custom):
@@ -146,7 +182,7 @@ def correspondence(ctx):
             c.count("skipped:" + str(ex)[:40])
     t1 = time.time()
     # 2. crafted payloads, direct
-    for _ in range(ctx.budget(6000, 120000)):
+    for _ in range(ctx.budget(6000, 60000)):
         p, rr = vc.gen_payload(r), r.choice(RECVS)
         try:
             line, obs, info = vc.run_payload_direct(p, rr)
@@ -165,11 +201,11 @@ def correspondence(ctx):
         return pairs[(s, rr)]
 
     try:
-        per = ctx.budget(2, 32)
+        per = ctx.budget(2, 8)
         for i, spec in enumerate(specs + custom):
             local_cls = spec["cls"] in ("builtins:SystemExit", "builtins:KeyboardInterrupt")
             cfgs = [(s, rr) for s in E2E_SENDS for rr in RECVS]
-            picks = cfgs if per >= 32 and not local_cls else [r.choice(cfgs) for _ in range(8 if local_cls else per)]
+            picks = [r.choice(cfgs) for _ in range(8 if local_cls else per)]
             for s, rr in picks:
                 try:
                     line, obs, info = vc.run_exc_e2e(pair_for(s, rr), spec, s, rr, sync=(i % 5 != 4))
@@ -179,7 +215,7 @@ def correspondence(ctx):
                 add(dict(kind="exc", spec=spec, s=s, r=rr, mode="e2e"), ["imp", "init", "seen"], line, obs, info,
                     "e2e:" + ("custom" if not spec["cls"].startswith("builtins:") else "builtin"),
                     _sig_exc("e", spec, s, rr, obs["seen"]))
-        for k in range(ctx.budget(2500, 40000)):
+        for k in range(ctx.budget(2500, 15000)):
             p, rr = vc.gen_payload(r), r.choice(RECVS)
             try:
                 line, obs, info = vc.run_payload_e2e(pair_for("TTFF", rr), p, rr, sync=(k % 5 != 4))
@@ -192,33 +228,13 @@ def correspondence(ctx):
         for pr in pairs.values():
             pr.close()
     t3 = time.time()
-    try:
-        outs = run_driver(lines, exe="drv_vinegar")
-    except DriverError as ex:
-        c.error = str(ex)
+    flush()
+    if c.error:
         return c
-    t4 = time.time()
-    for (case, keys, obs, info, label, sig), out in zip(metas, outs):
-        if not _compare(c, case, keys, obs, out, info, label):
-            continue
-        c.evaluations += 1
-        seen = obs["seen"].split(" ")
-        c.count(label)
-        c.count("seen:" + (" ".join(seen[:2]) if seen[0] == "err" else seen[0] + (":" + seen[1] if len(seen) > 1 else "")))
-        if obs.get("imp", "( )") != "( )":
-            c.count("import-attempted")
-        if obs.get("delta"):
-            c.count("module-imported")
-        trivial = case["kind"] == "exc" and case["spec"]["cls"] == "builtins:ValueError" and case["spec"]["args"] == "( )" \
-            and case["s"][:2] == "TT" and case["r"] == "FFF"
-        if not trivial:
-            c.signatures.add(sig)
-        if len(c.samples) < 12 and c.evaluations % 4099 == 7:
-            c.samples.append(dict(case=case, seen=obs["seen"][:300]))
     c.extra["builtin_exception_classes"] = [k.__name__ for k in ve.builtin_exception_classes()]
     c.extra["switch_settings_per_exception"] = 32
     c.extra["phase_seconds"] = dict(genuine_direct=round(t1 - t0, 1), payload_direct=round(t2 - t1, 1),
-                                    end_to_end=round(t3 - t2, 1), lean_driver=round(t4 - t3, 1))
+                                    end_to_end=round(t3 - t2, 1), lean_driver_within_those=round(driver_s[0], 1))
     c.exhaustive = False
     return c
 
@@ -250,7 +266,7 @@ def _observe_exc(spec, s, r, mode):
     res = dict(exc=exc, t=t)
     if mode == "direct":
         t, v, tb = vc.capture(exc)
-        res["tbtext"] = "".join(traceback.format_exception(t, v, tb))
+        res["tbtext"] = ve.format_tb(t, v, tb)
         payload = brine.load(brine.dump(vinegar.dump(t, v, tb, sf[0], sf[1])))
         ve.reset_canaries()
         with ve.ImportWatch() as w:
@@ -272,7 +288,10 @@ def _observe_exc(spec, s, r, mode):
         cap = {}
 
         def spy(t_, v_, tb_):
-            cap["tbtext"] = "".join(traceback.format_exception(t_, v_, tb_))
+            try:
+                cap["tbtext"] = ve.format_tb(t_, v_, tb_)
+            except ve.Unrepresentable:
+                cap["unformattable"] = True
             return pair.orig_box(t_, v_, tb_)
         after = {}
 
@@ -280,6 +299,8 @@ def _observe_exc(spec, s, r, mode):
             after["real"] = getattr(sys.modules.get(m), c, None) if type(c) is str else None
             return m, c, {}
         obs = (pair.call if t in (SystemExit, KeyboardInterrupt) else pair.call_sync)(spy, at_end)
+        if cap.get("unformattable"):
+            raise ve.Unrepresentable("traceback.format_exception raises on the sender")
         res["tbtext"] = cap.get("tbtext", "")
         res["real_after"] = after.get("real")
         res.update(attempts=valtext.from_text(obs["imp"]), delta=obs["delta"], init=obs["init"])
